@@ -28,6 +28,9 @@ Inductive action :=
 | PWrite (k : Z) (stamps : list Z)
 | DelChan (k : Z)
 | PDelete (k a b : Z)
+| WriteIdx (g : Z) (stamps : list Z)     (* a writer on the index channel only *)
+| WriteData (g : Z) (stamps : list Z)    (* a writer on the data channel only, over existing index stamps *)
+| DeleteIdx (g a b : Z)                  (* DeleteTimeRange on the index channel only *)
 | Noop.
 
 Definition add_samples (c : content) (l : list (Z * Z)) : content :=
@@ -54,6 +57,9 @@ Definition step (st : store) (a : action) : store :=
   | PWrite k stamps => upd st k (fun c => add_samples c (map (fun t => (t, t)) stamps))
   | DelChan k => delete k st
   | PDelete k a b => upd st k (del_range a b)
+  | WriteIdx g stamps => upd st (idx_key g) (fun c => add_samples c (map (fun t => (t, t)) stamps))
+  | WriteData g stamps => upd st (data_key g) (fun c => add_samples c (map (fun t => (t, enc g t)) stamps))
+  | DeleteIdx g a b => upd st (idx_key g) (del_range a b)
   | Noop => st
   end.
 
@@ -68,6 +74,8 @@ Definition chans (a : action) : list Z :=
   | Write g _ => [idx_key g; data_key g]
   | Delete g _ _ _ => [idx_key g; data_key g]
   | Create k | PWrite k _ | DelChan k | PDelete k _ _ => [k]
+  | WriteIdx g _ | DeleteIdx g _ _ => [idx_key g]
+  | WriteData g _ => [data_key g]
   | Noop => []
   end.
 
